@@ -168,6 +168,22 @@ def moebius(n=7):
     return _pack(verts, elems, doms)
 
 
+def bicone(n=12):
+    """Closed double cone: two poles of valence n, 2n triangles."""
+    verts = [(0.0, 0.0, 1.0), (0.0, 0.0, -1.0)]
+    for i in range(n):
+        t = 2 * np.pi * i / n
+        verts.append((np.cos(t), np.sin(t), 0.0))
+    elems = []
+    doms = []
+    for i in range(n):
+        a, b = 2 + i, 2 + (i + 1) % n
+        elems.append((0, a, b))
+        elems.append((1, b, a))
+        doms += [0, 1]
+    return _pack(verts, elems, doms)
+
+
 FAMILIES = {
     "tetrahedron": tetrahedron,
     "octahedron": octahedron,
@@ -180,6 +196,9 @@ FAMILIES = {
     "two_tetrahedra": two_tetrahedra,
     "pinched": pinched,
     "moebius": moebius,
+    "bicone12": lambda: bicone(12),
+    "bicone40": lambda: bicone(40),
+    "bicone70": lambda: bicone(70),
 }
 
 CLOSED = {"tetrahedron", "octahedron", "cube", "torus", "two_tetrahedra"}
